@@ -266,7 +266,7 @@ def minimise(c, binary, hist, kind, variant="int"):
     ops = ops[:v[1] + 1] if kind != "after-drain" else ops
     rounds = 0
     chunk = max(1, len(ops) // 2)
-    while chunk >= 1 and rounds < 40:
+    while chunk >= 1 and rounds < 30:
         cands = []
         for s in range(0, len(ops), chunk):
             cand = ops[:s] + ops[s + chunk:]
@@ -394,7 +394,8 @@ def run_pq(c, binary):
     bad = [i for i in range(len(hists)) if i >= len(impl) or i >= len(model) or impl[i] != model[i]]
     c.cov["traces_validated_against_impl"] += len(hists) - len(bad)
     c.cov["pq_diverging_histories"] = len(bad)
-    # ---- search layer
+    # ---- search layer (one full search + minimisation per kind of failure; the rest is only counted)
+    seen = set()
     for i in bad[:40]:
         prof, variant, cm, cap, ops = hists[i]
         ie = parse_line(impl[i]) if i < len(impl) else []
@@ -413,6 +414,10 @@ def run_pq(c, binary):
             if v2 is not None:
                 failing, v, kind = ext, v2, ("after-drain" if v2[0] != "heap-order" else "heap-order")
         if v is not None:
+            pre = (variant, OPNAME.get(failing[2][v[1]][0], "?") if v[1] < len(failing[2]) else "?", v[0])
+            if pre in seen or len(seen) >= 8:
+                continue
+            seen.add(pre)
             small, vs = minimise(c, binary, failing, kind, variant)
             if vs is None:
                 small, vs = failing, v
@@ -426,6 +431,9 @@ def run_pq(c, binary):
                       "how": "echo '%s %s %d %s' | harness/bin/h c05pq" % (variant, small[0], small[1], " ".join(small[2]))})
         else:
             what = "array" if (k < len(ie) and k < len(me) and ie[k][:2] == me[k][:2]) else "answer"
+            if (variant, opn, what) in seen:
+                continue
+            seen.add((variant, opn, what))
             c.report("C05:pq:%s:%s-differs-from-model" % (opn, what),
                      "PriorityQueue: the implementation no longer corresponds to HeapModel (%s after %s differs) but its answers are "
                      "accepted by the sorted-multiset specification, also after a full drain, and every dumped array is heap-ordered"
